@@ -77,6 +77,12 @@ def check_rows(ck):
     fns = f.fns("cglue-lib")
     adts = {a["path"]: a for a in f.adts("cglue-lib")}
     n_ctor = n_back = n_utf = n_enum = n_tup = 0
+    # functions of slice.rs that rebuild a slice from a view (each one is checked by S-back-ptr-len below): other conversions may
+    # delegate to them instead of calling from_raw_parts themselves
+    back_fns = set()
+    for fn in fns:
+        if "/slice.rs" in fn["span"] and any((mir.callee_path(t) or "") in RAW_PARTS for _, t in mir.Body(fn).calls()):
+            back_fns.add(fn["path"])
     for fn in fns:
         body = mir.Body(fn)
         live = body.live_blocks()
@@ -132,6 +138,10 @@ def check_rows(ck):
                     a = body.origin_operand(t["args"][0])
                     a = mir.strip(a)
                     ok2 = a[0] == "call" and a[1] in RAW_PARTS
+                    if not ok2 and a[0] == "call" and a[2]:
+                        resolved = a[4][4] if len(a) > 4 and a[4] and len(a[4]) > 4 and a[4][4] else a[1]
+                        cand = {a[1], resolved, resolved + "::from", resolved + "::into"}
+                        ok2 = bool(cand & back_fns) and base_of(a[2][0]) == ("arg", 1)
                     ck.ob("U-checked-input", key, ok2, "%s validates something other than the view's (data,len): %s" % (fn["path"], mir.fmt(a)))
                 if "from_utf8_unchecked" in cp:
                     n_utf += 1
@@ -159,7 +169,7 @@ def check_rows(ck):
             ck.ob("E-single-discr-switch", key, ok_sw, "%s does not dispatch on exactly one discriminant read of its argument" % fn["path"])
             if not ok_sw:
                 continue
-            arm = {int(v): bb for v, bb in sw[0][1]["targets"]}
+            arm = mir.enum_arms(body, (sw[0][0], None, {int(v): bb for v, bb in sw[0][1]["targets"]}, sw[0][1]["otherwise"]), nvariants=len(variants))
             built = {}
             for i in sorted(live):
                 for s in body.blocks[i]["s"]:
@@ -195,7 +205,7 @@ def check_rows(ck):
             ck.ob("T-arity", key, len(ret["ops"]) == n_in or isf.startswith("("), "%s drops or adds tuple elements" % fn["path"])
             ck.ob("T-no-calls", key, not body.calls() and not has_switch(body), "%s is not a plain field shuffle" % fn["path"])
     ck.floor("slice view constructors", n_ctor, 5)
-    ck.floor("from_raw_parts conversions in slice.rs", n_back, 13)
+    ck.floor("from_raw_parts conversions in slice.rs", n_back, 9)
     ck.floor("utf-8 conversion sites", n_utf, 6)
     ck.floor("enum From impls", n_enum, 4)
     ck.floor("tuple From impls", n_tup, 8)
